@@ -270,3 +270,16 @@ Definition pwf_rule (x : rule) : bool :=
   pwf_oconds (rule_conditions x) && pwf_lets (rule_lets x) && forallb (forallb pwf_rc) (rule_cnf x).
 Definition pwf_prog (p : rules_file) : bool :=
   pwf_lets (rf_lets p) && forallb pwf_rule (rf_rules p) && forallb (fun pr => pwf_rule (pr_rule pr)) (rf_param_rules p).
+
+(* ------------------------------------------------------------------ *)
+(* key-consistent values: the key list of a struct names only keys the struct holds (the invariant of
+   PathAwareValue::Map that guards the one panic site PanicProps leaves open); evaluated on every loaded document *)
+
+Fixpoint wfv (v : pv) : bool :=
+  match v with
+  | PList _ l => forallb wfv l
+  | PMap _ keys vals =>
+      forallb (fun k => match k with PString _ kn => match assoc kn vals with Some _ => true | None => false end | _ => true end) keys
+      && (fix go (l : list (string * pv)) : bool := match l with [] => true | (_, x) :: r => wfv x && go r end) vals
+  | _ => true
+  end.
